@@ -139,7 +139,7 @@ def forbidden_tokens(pid=None):
 # supporting theorem modules (text-level parser models) that are re-checked and audited together with a property:
 # PepperProps/<Name>.lean, namespace Pepper.<Name>.Props
 EXTRA_MODULES = {"C01": ["ParseComp"], "C02": ["ParseSys"], "C09": ["ParseComp", "ParseSys"], "C04": ["ParsePil"], "C06": ["ParsePil", "C06Text", "C06Gc"],
-                 "C12": ["ParseFixed"], "C16": ["C16Pickle"]}
+                 "C12": ["ParseFixed"], "C16": ["C16Pickle"], "C19": ["C19Safe"]}
 # namespace of the theorems of a supporting module (default Pepper.<Name>.Props)
 EXTRA_NAMESPACE = {"C06Text": "Pepper.C06.Text"}
 
